@@ -578,23 +578,6 @@ def run(ctx):
         sf = sctx.build(db=os.path.join(scratch, "c08.db"))
         ck = Checker(ctx, sf)
         try:
-            # Part 4: concurrent saves of shared entities, every schedule of every shape (capped per shape)
-            t0, c0 = time.time(), time.process_time()
-            cs = holder["cs"] = ConcurrentSaver(ctx, sf)
-            cs.gc = safegc
-            await cs.setup()
-            try:
-                for i, sh in enumerate(saveshapes):
-                    fam = sh["name"]
-                    vs = [(i + ctx.seed) % 9] if fam == "tokens" else [0]      # container classes dealt to the roles o, a, b
-                    for v in vs:
-                        done, complete = await cs.all_schedules(sh, v, ctx.pick(SAVE_CAP_QUICK, SAVE_CAP_THOROUGH))
-                        ctx.count("save_schedules:%s" % fam, done)
-                        ctx.count("save_shapes_all_schedules" if complete else "save_shapes_capped")
-                    ctx.count("save_shapes:%s" % fam)
-            finally:
-                cs.teardown()
-            phases["concurrent_saves"] = [round(time.time() - t0, 1), round(time.process_time() - c0, 1)]
             t0, c0 = time.time(), time.process_time()
             for vi, variant in enumerate(variants):
                 rs = Resaver(ctx, sf, variant)
@@ -617,6 +600,24 @@ def run(ctx):
                 ctx.count("shapes_checked:%s" % item["family"])
             ctx.impl_trace(len(sel))
             phases["shapes"] = [round(time.time() - t0, 1), round(time.process_time() - c0, 1)]
+            # Part 4: concurrent saves of shared entities, every schedule of every shape (capped per shape); last, because the
+            # identity scan of Part 2 walks the whole row caches, which these thousands of saves and loads fill up
+            t0, c0 = time.time(), time.process_time()
+            cs = holder["cs"] = ConcurrentSaver(ctx, sf)
+            cs.gc = safegc
+            await cs.setup()
+            try:
+                for i, sh in enumerate(saveshapes):
+                    fam = sh["name"]
+                    vs = [(i + ctx.seed) % 9] if fam == "tokens" else [0]      # container classes dealt to the roles o, a, b
+                    for v in vs:
+                        done, complete = await cs.all_schedules(sh, v, ctx.pick(SAVE_CAP_QUICK, SAVE_CAP_THOROUGH))
+                        ctx.count("save_schedules:%s" % fam, done)
+                        ctx.count("save_shapes_all_schedules" if complete else "save_shapes_capped")
+                    ctx.count("save_shapes:%s" % fam)
+            finally:
+                cs.teardown()
+            phases["concurrent_saves"] = [round(time.time() - t0, 1), round(time.process_time() - c0, 1)]
         finally:
             await sctx.close(sf)
 
